@@ -34,8 +34,12 @@ pub fn run(args: &Args) {
         let mut o = Outcome::default();
         let mut rng = Rng::new(seed, k);
         let kind = ["sheet", "workbook", "revisions"][(k % 3) as usize];
-        let password: String = match rng.below(7) {
+        let password: String = match rng.below(10) {
             0 => String::new(),
+            // longer than 255 UTF-16 units (the hash algorithm has no length limit)
+            7 => format!("{}{}", "long-é".repeat(rng.range(43, 60) as usize), k),
+            8 => "😀".repeat(rng.range(126, 140) as usize),
+            9 => "x".repeat(*rng.pick(&[254usize, 255, 256, 257, 511, 512, 1000])),
             1 => format!("{}-{}", "L".repeat(240), k),
             2 => format!("pw-{}-é😀𠀋", k),
             3 => format!("パスワード{}", k),
